@@ -2,7 +2,7 @@
 THR = ["0", "1", "2", "3", "5", "10", "5/2", "21/8", "1/10", "7/2", "1000000"]
 IVL_DEFAULT = [0, 1000]
 IVL_REUSE = [500, 1500 * 0 + 2000, 2500, 5000, 10000, 1000 * 5 // 5 * 2]   # reuse the 10 s global array
-IVL_PRIVATE = [250, 700, 1500, 3000, 20000, 1]
+IVL_PRIVATE = [250, 700, 1500, 3000, 20000, 1, 1001, 1200, 1250, 3001, 3333, 7777, 9999, 999]   # incl. odd ones between 1 s and 10 s (seed C01-f)
 
 
 def gap(rng, L, W):
